@@ -17,7 +17,9 @@ fn main() {
             match a(2) {
                 "strings" => {
                     let alpha = lexcheck::parse_alphabet(a(3));
-                    lexcheck::sweep_strings(&alpha, n(4) as usize, n(5), n(6).max(1));
+                    let pre = lexcheck::parse_alphabet(a(7)).concat();
+                    let suf = lexcheck::parse_alphabet(a(8)).concat();
+                    lexcheck::sweep_strings(&alpha, n(4) as usize, n(5), n(6).max(1), &pre, &suf);
                 }
                 "pairs" => lexcheck::sweep_pairs(n(3), n(4).max(1)),
                 "layouts" => lexcheck::sweep_layouts(n(3) as usize, n(4), n(5).max(1)),
